@@ -40,6 +40,25 @@ Theorem C42_partition_model_oracle_independent :
 Proof. exact partition_model_oracle_independent. Qed.
 Print Assumptions C42_partition_model_oracle_independent.
 
+(* "The output is a function of the input program" for the modelled pipeline: the per-run source scan
+   (tools/partition.py scan_hash_iteration, which follows type aliases and hash-returning functions)
+   finds exactly ONE hash-iteration site in dfir_lang/src (try_merge's enemy merge); every other
+   std HashMap/HashSet there is accessed by key only, and keyed access is already a function in the
+   model (association lists looked up by key).  So the only way two compilations of one program
+   could differ inside the modelled pipeline is through two different iteration orders at that
+   site -- and any two admissible oracles give the same complete partitioned graph: *)
+Theorem C42_model_output_function_of_input :
+  forall (pi1 pi2 : list N -> list N),
+    (forall l, Permutation (pi1 l) l) -> (forall l, Permutation (pi2 l) l) ->
+    forall (T : optable) (g : graph), partition_model_o pi1 T g = partition_model_o pi2 T g.
+Proof.
+  intros pi1 pi2 H1 H2 T g.
+  transitivity (partition_model T g).
+  - exact (partition_model_oracle_independent pi1 H1 T g).
+  - symmetry. exact (partition_model_oracle_independent pi2 H2 T g).
+Qed.
+Print Assumptions C42_model_output_function_of_input.
+
 (* non-vacuity: reversing every iteration is an admissible oracle, and on a graph whose
    partitioning does merge subgraphs that carry enemies (defer_tick barrier) the oracle model
    computes the same complete graph as the plain model *)
